@@ -1,0 +1,205 @@
+//go:build verif
+// +build verif
+
+package leveldb
+
+import (
+	"sync/atomic"
+	"time"
+
+	"github.com/syndtr/goleveldb/leveldb/memdb"
+	"github.com/syndtr/goleveldb/leveldb/opt"
+	"github.com/syndtr/goleveldb/leveldb/storage"
+)
+
+// VerifTable is the metadata of one live table as the version records it.
+type VerifTable struct {
+	Level      int
+	Num        int64
+	Size       int64
+	Imin, Imax []byte
+}
+
+// VerifEntry is one internal entry (parsed internal key + value).
+type VerifEntry struct {
+	Ukey  []byte
+	Seq   uint64
+	Kind  uint
+	Value []byte
+}
+
+// VerifEdit describes one committed session record together with the version it produced.
+type VerifEdit struct {
+	Added      []VerifTable
+	Deleted    []VerifTable // Level and Num only
+	HasJournal bool
+	JournalNum int64
+	HasSeq     bool
+	SeqNum     uint64
+	Trivial    bool
+	Version    []VerifTable // the newly installed version
+}
+
+var verifCommitHook atomic.Value // func(*DB-less) : func(VerifEdit)
+
+// VerifSetCommitHook installs a function called (on the committing goroutine, after the new version has
+// been installed) for every successfully committed session record.
+func VerifSetCommitHook(f func(VerifEdit)) {
+	verifCommitHook.Store(&f)
+}
+
+func verifDumpLevels(levels []tFiles) []VerifTable {
+	var out []VerifTable
+	for level, tables := range levels {
+		for _, t := range tables {
+			out = append(out, VerifTable{Level: level, Num: t.fd.Num, Size: t.size,
+				Imin: append([]byte(nil), t.imin...), Imax: append([]byte(nil), t.imax...)})
+		}
+	}
+	return out
+}
+
+func verifCommitted(s *session, r *sessionRecord, nv *version, trivial bool) {
+	p, _ := verifCommitHook.Load().(*func(VerifEdit))
+	if p == nil || *p == nil {
+		return
+	}
+	e := VerifEdit{Trivial: trivial, Version: verifDumpLevels(nv.levels)}
+	for _, t := range r.addedTables {
+		e.Added = append(e.Added, VerifTable{Level: t.level, Num: t.num, Size: t.size,
+			Imin: append([]byte(nil), t.imin...), Imax: append([]byte(nil), t.imax...)})
+	}
+	for _, t := range r.deletedTables {
+		e.Deleted = append(e.Deleted, VerifTable{Level: t.level, Num: t.num})
+	}
+	if r.has(recJournalNum) {
+		e.HasJournal, e.JournalNum = true, r.journalNum
+	}
+	if r.has(recSeqNum) {
+		e.HasSeq, e.SeqNum = true, r.seqNum
+	}
+	(*p)(e)
+}
+
+var verifBusy int32
+
+func verifJobBegin() { atomic.AddInt32(&verifBusy, 1) }
+func verifJobEnd()   { atomic.AddInt32(&verifBusy, -1) }
+
+// VerifDumpVersion pins the current version and returns its per-level table metadata in level order.
+func VerifDumpVersion(db *DB) []VerifTable {
+	v := db.s.version()
+	defer v.release()
+	return verifDumpLevels(v.levels)
+}
+
+// VerifSeq returns the current sequence number.
+func VerifSeq(db *DB) uint64 { return db.getSeq() }
+
+// VerifMinSeq returns the sequence number compactions must preserve (oldest snapshot or current).
+func VerifMinSeq(db *DB) uint64 { return db.minSeq() }
+
+// VerifSnapshotSeq returns the sequence number a snapshot is pinned at.
+func VerifSnapshotSeq(snap *Snapshot) uint64 { return snap.elem.seq }
+
+// VerifWaitIdle waits until there is no frozen memdb, no background job is running and no table
+// compaction is needed; it returns false on timeout.
+func VerifWaitIdle(db *DB, timeout time.Duration) bool {
+	deadline := time.Now().Add(timeout)
+	stable := 0
+	for time.Now().Before(deadline) {
+		if db.isClosed() {
+			return true
+		}
+		fm := db.getFrozenMem()
+		if fm != nil {
+			fm.decref()
+		}
+		if fm == nil && atomic.LoadInt32(&verifBusy) == 0 && !db.tableNeedCompaction() {
+			stable++
+			if stable >= 3 {
+				return true
+			}
+		} else {
+			stable = 0
+			if fm != nil {
+				db.compTrigger(db.mcompCmdC)
+			} else {
+				db.compTrigger(db.tcompCmdC)
+			}
+		}
+		time.Sleep(200 * time.Microsecond)
+	}
+	return false
+}
+
+func verifMemEntries(m *memdb.DB) []VerifEntry {
+	var out []VerifEntry
+	it := m.NewIterator(nil)
+	defer it.Release()
+	for it.Next() {
+		u, s, k, err := parseInternalKey(it.Key())
+		if err != nil {
+			continue
+		}
+		out = append(out, VerifEntry{Ukey: append([]byte(nil), u...), Seq: s, Kind: uint(k), Value: append([]byte(nil), it.Value()...)})
+	}
+	return out
+}
+
+// VerifMemEntries returns the entries of the live and of the frozen write buffer (nil if absent).
+func VerifMemEntries(db *DB) (live, frozen []VerifEntry, hasFrozen bool) {
+	em, fm := db.getMems()
+	if em != nil {
+		live = verifMemEntries(em.DB)
+		em.decref()
+	}
+	if fm != nil {
+		frozen = verifMemEntries(fm.DB)
+		hasFrozen = true
+		fm.decref()
+	}
+	return
+}
+
+// VerifTableEntries reads all entries of one live table file through the DB's table cache.
+func VerifTableEntries(db *DB, t VerifTable) ([]VerifEntry, error) {
+	tf := &tFile{fd: storage.FileDesc{Type: storage.TypeTable, Num: t.Num}, size: t.Size, imin: t.Imin, imax: t.Imax}
+	it := db.s.tops.newIterator(tf, nil, &opt.ReadOptions{DontFillCache: true, Strict: opt.StrictAll})
+	defer it.Release()
+	var out []VerifEntry
+	for it.Next() {
+		u, s, k, err := parseInternalKey(it.Key())
+		if err != nil {
+			return out, err
+		}
+		out = append(out, VerifEntry{Ukey: append([]byte(nil), u...), Seq: s, Kind: uint(k), Value: append([]byte(nil), it.Value()...)})
+	}
+	return out, it.Error()
+}
+
+// VerifSnapshotSeqs returns the sequence numbers of the live snapshots, oldest first.
+func VerifSnapshotSeqs(db *DB) []uint64 {
+	db.snapsMu.Lock()
+	defer db.snapsMu.Unlock()
+	var out []uint64
+	for e := db.snapsList.Front(); e != nil; e = e.Next() {
+		out = append(out, e.Value.(*snapshotElement).seq)
+	}
+	return out
+}
+
+// Event kinds emitted through verifEvent by the DB-level hook points.
+const (
+	VerifEvMinSeq      = 300 // a = minSeq read by a table compaction, b = source level
+	VerifEvFlushStart  = 301
+	VerifEvFlushEnd    = 302
+	VerifEvTCompStart  = 303 // a = source level
+	VerifEvTCompEnd    = 304
+	VerifYieldGetSeq   = 1 // reader fixed its sequence number
+	VerifYieldGetMems  = 2 // reader took the buffers, not yet the version
+	VerifYieldIterMems = 3 // iterator took the buffers, not yet the version
+	VerifYieldWriteIns = 4 // group inserted, sequence not yet advanced
+	VerifYieldFlushCmt = 5 // flush committed, frozen buffer not yet dropped
+	VerifYieldTxnCmt   = 6 // transaction committed, sequence not yet set
+)
